@@ -19,6 +19,7 @@ import itertools
 import json
 import os
 import random
+import time
 
 import vcheck as vc
 
@@ -444,7 +445,7 @@ def light(line):
     return rec
 
 
-def validate_lines(work, lines, tag, spans=False, timeout=900, per_shard=2500):
+def validate_lines(work, lines, tag, spans=False, timeout=900, per_shard=2500, mode="full"):
     """ValidateParse.tla over trace lines, sharded over JVMs, bisecting a shard TLC cannot evaluate.
     Returns (verdicts aligned with lines, stats)."""
     n = len(lines)
@@ -452,7 +453,7 @@ def validate_lines(work, lines, tag, spans=False, timeout=900, per_shard=2500):
     if n == 0:
         return [], stats
     size = sum(len(l) for l in lines)
-    shards = max(1, min(4 * vc.NCPU, max(n // per_shard, size // (12 << 20)) + 1))
+    shards = max(1, min(vc.NCPU if size < (400 << 20) else 3 * vc.NCPU, max(n // per_shard, size // (12 << 20)) + 1))
     bounds = [(i * n // shards, (i + 1) * n // shards) for i in range(shards)]
     verdicts = [None] * n
     counter = itertools.count()
@@ -462,7 +463,7 @@ def validate_lines(work, lines, tag, spans=False, timeout=900, per_shard=2500):
         tpath, vpath = work.path(k + ".trace.ndjson"), work.path(k + ".verdict.ndjson")
         with open(tpath, "w") as f:
             f.writelines(lines[lo:hi])
-        env = {"VERIF_TRACE": tpath, "VERIF_OUT": vpath, "VERIF_SPANS": "1" if spans else "0"}
+        env = {"VERIF_TRACE": tpath, "VERIF_OUT": vpath, "VERIF_SPANS": "1" if spans else "0", "VERIF_MODE": mode}
         res = vc.tlc(work.dir, "ValidateParse.tla", "ValidateParse.cfg", env=env, timeout=tmo, xmx="2g", extra=["-noGenerateSpecTE"])
         stats["tlc_wall"] += res.wall
         stats["tlc_runs"] += 1
@@ -555,6 +556,9 @@ class Checker:
             self.bump(v["v"])
             rep.count("out_of_model")
             return
+        if v.get("v") == "vars":
+            self.classify_vars(rec, v, case, src)
+            return
         if v["acc"] != rec["ok"]:
             self.bump("mismatch_accept")
             self.disagree("accept", "%r: real parser %s, grammar specification %s" % (
@@ -605,9 +609,20 @@ class Checker:
                 good = False
                 self.bump("mismatch_tonumber")
                 self.disagree("tonumber", "%r | tonumber: real %s, lexer specification (validNumber) %s" % (src, rec["tn"], v["tn"]), dict(case, tn=True), rec["tn"], v["tn"])
+        if good:
+            self.bump("agree_accepted" if rec["ok"] else "agree_rejected")
+            rep.count("traces_validated_against_impl")
+            if rec["ok"]:
+                rep.nontrivial(rec["srcB"])
+                if rec.get("tag") != "tokseq" or len(rec["srcB"]) > 4:
+                    rep.sample({"source": src, "printed": src_text(rec["printed"]), "tokens": v.get("ntok"), "family": family}, limit=8)
+
+    def classify_vars(self, rec, v, case, src):
+        """re-spacings: the same token sequence (decided by Lexer.tla) must give the same outcome and AST"""
+        rep = self.rep
+        good = True
         for j, var in enumerate(rec.get("vars", [])):
-            same = v["vars"][j]
-            if not same:
+            if not v["vars"][j]:
                 self.bump("respacing_changed_tokens")
                 continue
             rep.count("respacings_checked")
@@ -617,21 +632,24 @@ class Checker:
                 self.bump("mismatch_respacing")
                 self.disagree("respacing", "%r and its re-spacing %r have the same tokens but %s" % (
                     src, src_text(var["b"]), "different ASTs" if var.get("ok") and rec["ok"] else "only one is accepted"),
-                    dict(case, vars=[var["b"]]), {"var": {k: var[k] for k in var if k != "b"}})
+                    dict(case, vars=[var["b"]]), {"ok": rec["ok"], "var": {k: var[k] for k in var if k != "b"}})
         if good:
-            self.bump("agree_accepted" if rec["ok"] else "agree_rejected")
+            self.bump("agree_respacing")
             rep.count("traces_validated_against_impl")
-            if rec["ok"]:
-                rep.nontrivial(rec["srcB"])
-                if rec.get("tag") != "tokseq" or len(rec["srcB"]) > 4:
-                    rep.sample({"source": src, "printed": src_text(rec["printed"]), "tokens": v.get("ntok"), "family": family}, limit=8)
 
-    def run_family(self, family, cases, spans=False, noast=False, timeout=900):
+    def run_family(self, family, cases, spans=False, noast=False, timeout=900, mode="full"):
         """replay cases on the real code, validate with TLC, classify; returns (light records, verdicts)"""
+        t0, c0 = time.time(), sum(os.times()[:4])
+        try:
+            return self._run_family(family, cases, spans, noast, timeout, mode)
+        finally:
+            vc.log("  %-15s %7d cases  wall %6.1fs  cpu %6.1fs" % (family, len(cases), time.time() - t0, sum(os.times()[:4]) - c0))
+
+    def _run_family(self, family, cases, spans, noast, timeout, mode):
         for i, c in enumerate(cases):
             c["id"] = i
         lines = harness(self.work, self.vh, cases, family, noast=noast)
-        verdicts, stats = validate_lines(self.work, lines, family, spans=spans, timeout=timeout)
+        verdicts, stats = validate_lines(self.work, lines, family, spans=spans, timeout=timeout, mode=mode)
         self.rep.add_tlc(stats)
         recs = []
         for line, v in zip(lines, verdicts):
@@ -725,7 +743,7 @@ def run(tier, seed, replay):
         if replay:
             rec = json.load(open(replay))
             c = dict(rec["case"])
-            ck.run_family("replay", [c], spans=False)
+            ck.run_family("replay", [c], mode="vars" if c.get("vars") else "full")
             ck.settle()
             vc.log("replay:", ck.c)
             return rep.finish(min_decided=0)
@@ -826,7 +844,7 @@ def run(tier, seed, replay):
                 src = bytes(rec["srcB"])
                 vs = respacings(r, src, v["spans"])
                 cases.append({"srcB": rec["srcB"], "vars": [list(x) for x in vs], "tag": "respace"})
-        ck.run_family("respacing", cases, noast=False)
+        ck.run_family("respacing", cases, noast=True, mode="vars")
 
         # ---- design-level runs: collect
         for name, fu in mc:
